@@ -13,11 +13,13 @@ MANIFEST = {
             "hidden left recursion) of real tpl/cl compile result (ok / recursive variable X), real stops, and real Match/Parse/ParseExpr "
             "executed in a child process with wall-clock timeout and bounded stack, against the model run with matchBound fuel.",
     "note": "trusted: Lean kernel; hand-written model + differential tie; termination of the scanner is C15/C32's subject; "
-            "return procedures are assumed to terminate.",
+            "return procedures are assumed to terminate; return procedures that FAIL at run time (panic with string / tpl.Panic / error value, which Var.Match turns "
+            "into Dyn or ordinary errors) are not in the model: such cases are excluded from the differential and covered by the harness-only termination "
+            "oracle (same CPU-budget child process).",
     "technique": "Lean 4 proof (well-founded measure made explicit as fuel) + differential correspondence + timeout oracle in a child process",
 }
 
-RULE = ("20 fixed adversarial grammars (doc = *?\"a\", a = a \"x\", left recursion hidden behind nullable prefixes / not reachable from a choice, "
+RULE = ("80 fixed cases with nullable repetition bodies whose return procedure fails on the empty match (4 failure kinds) + the same random grammars re-run with failing return procedures on 70% of their rules for 30% of the grammars (termination oracle only); 20 fixed adversarial grammars (doc = *?\"a\", a = a \"x\", left recursion hidden behind nullable prefixes / not reachable from a choice, "
         "*SPACE, *\"\", nested repetitions, nullable R1 % R2) + random grammars with 60% deliberately nullable repetition bodies and 35% "
         "sequences starting with a rule reference, 1-4 rules; 2 inputs each (derivations + edits); each match in a child process "
         "(3 s CPU budget, 48 MB stack); thorough adds an exhaustive enumeration of all 1745 single-rule grammars x, op x, x OP y, op(x OP y) over "
